@@ -714,6 +714,8 @@ def run_e(prop, tier, n_st=350, n_pool=350, dfs_budget=500, long_runs=30):
             be_fails, be_runs = tf + be_fails, be_runs + tr
             of, orr = seeded_order_checks(ld, r, tier)
             be_fails, be_runs = of + be_fails, be_runs + orr
+            xf, xr = exotic_example_checks(ld, r, tier)
+            be_fails, be_runs = xf + be_fails, be_runs + xr
         if prop == 'C06':
             rf, rr = random_order_catch_checks(ld, r, tier)
             be_fails, be_runs = rf + be_fails, be_runs + rr
@@ -1169,6 +1171,54 @@ class _LazyShuffle:
         return ds.shuffle(True, rng=self.rng)
 
 
+class AnyEq:
+    """equal to everything (like unittest.mock.ANY)"""
+    def __eq__(self, other): return True
+    def __ne__(self, other): return False
+    def __hash__(self): return 1
+    def __repr__(self): return 'AnyEq()'
+
+
+class EqRaises:
+    def __eq__(self, other): raise TypeError('not comparable')
+    def __hash__(self): return 2
+    def __repr__(self): return 'EqRaises()'
+
+
+def exotic_example_checks(ld, r, tier):
+    """examples whose comparison is not a plain bool - numpy arrays, objects that are equal to everything, objects that refuse to be
+    compared - are delivered like any other example (the stream must never test an example with == / truthiness to find its end)"""
+    import numpy as np, warnings
+    fails, runs = [], 0
+    with warnings.catch_warnings():
+        warnings.simplefilter('ignore')
+        for _ in range(20 if tier == 'quick' else 200):
+            n = r.randint(1, 5)
+            mk = [lambda: np.arange(3), lambda: AnyEq(), lambda: EqRaises(), lambda: np.zeros((2, 2)), lambda: [np.arange(2)], lambda: 5]
+            makers = [r.choice(mk) for _i in range(n)]
+            vals = [m() for m in makers]
+            keyed = r.random() < 0.5
+            w, b = r.choice([(1, 1), (1, 2), (1, 4), (2, 2), (3, 3)])
+            how = r.choice(['prefetch', 'prefetch', 'parmap', 'prefetch_items'])
+            try:
+                src = ld.core.DictDataset({f'k{i}': v for i, v in enumerate(vals)}) if keyed else ld.core.ListDataset(list(vals))
+                seq = [repr(x) for x in src.map(_ident_e)]
+                if how == 'prefetch': d = src.map(_ident_e).prefetch(w, b)
+                elif how == 'parmap': d = src.map(_ident_e, num_workers=w, buffer_size=b)
+                else:
+                    if not keyed or w > 1:
+                        continue
+                    d = src.map(_ident_e).prefetch(w, b).items()
+                runs += 1
+                got = b_observe(lambda: d)
+                vals_got = [repr(x[1]) if how == 'prefetch_items' else repr(x) for x in got[0]]
+                if got[1] is not None or vals_got != seq:
+                    fails.append(f'{how} num_workers={w} buffer_size={b} over the examples {seq}: delivered {vals_got} then {got[1]}; the sequential pipeline delivers all of them')
+            except Exception as e:
+                fails.append(f'{how} over exotic examples raised {type(e).__name__}: {e}'[:300])
+    return fails, runs
+
+
 def seeded_order_checks(ld, r, tier):
     """C04 with a seeded per-epoch reshuffle below: epoch k behind prefetch (any worker count, with and without catching, also a copy of
     the prefetch stage) is epoch k of the identically seeded sequential pipeline - building a stage consumes no randomness"""
@@ -1422,9 +1472,9 @@ def process_backend_readahead(ld, r, tier):
     import lazy_dataset.parallel_utils as _pu
     with warnings.catch_warnings():
         warnings.simplefilter('ignore')
-        for be in ['dill_mp', 'multiprocessing', 'concurrent_mp', 'mp']:
+        for be in ['dill_mp', 'multiprocessing', 'concurrent_mp', 'mp', False]:
             for (w, b) in ([(2, 3)] if quick else [(2, 3), (1, 1), (3, 5)]):
-                for kind in (('direct', 'parmap') if quick else ('direct', 'parmap', 'prefetch')):
+                for kind in ((('direct', 'parmap', 'parmap_items') if quick else ('direct', 'parmap', 'parmap_items', 'prefetch')) if be is not False else ('parmap_items', 'parmap_up')):
                     fd, path = tempfile.mkstemp(prefix='c07_', suffix='.log')
                     os.close(fd)
                     fn = functools.partial(_mark, path=path)
@@ -1441,6 +1491,14 @@ def process_backend_readahead(ld, r, tier):
                     try:
                         if kind == 'direct': it = _pu.lazy_parallel_map(fn, gen(), buffer_size=b, max_workers=w, backend=be)
                         elif kind == 'parmap': it = iter(src.map(fn, num_workers=w, buffer_size=b, backend=be))
+                        elif kind in ('parmap_items', 'parmap_up'):
+                            # the stage BELOW the parallel map is evaluated in the calling thread while the input is handed to the workers:
+                            # it must not run ahead of the consumer by more than the buffer either - for value and for key iteration
+                            def up(x, pulled=pulled):
+                                pulled.append(x)
+                                return x
+                            ksrc = ld.new({f'k{i:02d}': i for i in range(n)}).map(up).map(fn, num_workers=w, buffer_size=b, backend=be)
+                            it = iter(ksrc.items() if kind == 'parmap_items' else ksrc)
                         else: it = iter(src.map(fn).prefetch(w, b, backend=be))
                         for k in range(1, 4):
                             next(it)
@@ -1458,7 +1516,7 @@ def process_backend_readahead(ld, r, tier):
                         except OSError: pass
                     if worst_started > b:
                         fails.append(f'backend {be} {kind} num_workers={w} buffer_size={b}: {worst_started} function applications started beyond the delivered examples while the consumer paused (bound: buffer_size = {b}; dataset length {n})')
-                    if kind == 'direct' and worst_pulled > b + 1:
+                    if kind in ('direct', 'parmap_items', 'parmap_up') and worst_pulled > b + 1:
                         fails.append(f'backend {be} {kind} num_workers={w} buffer_size={b}: {worst_pulled} source examples pulled beyond the delivered ones while the consumer paused (bound: buffer_size + 1 = {b + 1}; dataset length {n})')
     try:
         import pathos.helpers
